@@ -276,6 +276,11 @@ def lazy_part(ctx, prop, rng, seen, replay):
             # corpus: a worker that supports no variant of the selected test (net5: only Fedora) beside one that does - whoever
             # unrolls the test first, the compatible worker has to execute it
             jobs += [("normal..tutorial1", "net4 net5", sd, ctx.work, None) for sd in (11, 12, 13, 14)]
+        if prop in ("C01", "C05"):
+            # corpus: the producer of a state marked for removal (guisetup.noop) selected together with a dependant that is the
+            # LAST test to be unrolled: the cleanup has to wait for it
+            jobs += [("leaves..tutorial_gui.client_noop,leaves..tutorial_get.explicit_noop", nets, sd, ctx.work, None)
+                     for nets, sd in (("net1", 21), ("net1", 22), ("net1 net2", 23))]
         if prop in ("C01", "C08"):
             # corpus: a two-vm test whose vms both need a same-named setup state, non-default vm1 variant
             jobs.append(("normal..tutorial3", "net1", 7, ctx.work, {"_vm1": "Fedora"}))
